@@ -8,4 +8,5 @@ Extraction "c17_model.ml"
   prienc_width petree_width encoder_width
   umin umax smin smax ldiv sldiv_gen addc
   crc crc_state_run crc_preset
-  counter_cfg_end counter_cfg_w counter_cfg_dyn counter_run updown_run.
+  counter_cfg_end counter_cfg_w counter_cfg_dyn counter_run updown_run
+  counter_never counter_use_in.
